@@ -28,9 +28,9 @@ pub mod rw {
                     let n = r->Ok_0 as int;
                     &&& n <= old(buf)@.len() && n <= (*old(self)).rem().len()
                     &&& (n == 0 <==> ((*old(self)).rem().len() == 0 || old(buf)@.len() == 0))
-                    &&& /*[C10,C02 reader_hands_out_the_next_bytes_of_the_stream]*/ final(buf)@.take(n) == (*old(self)).rem().take(n)
+                    &&& /*[C10,C02,C01,C07 reader_hands_out_the_next_bytes_of_the_stream]*/ final(buf)@.take(n) == (*old(self)).rem().take(n)
                     &&& /*[C10,C02 reader_advances_by_what_it_handed_out]*/ (*final(self)).rem() == (*old(self)).rem().skip(n)
-                    &&& /*[C10,C11,C02 reader_position_counts_exactly_the_bytes_handed_out]*/ (*final(self)).pos() == (*old(self)).pos() + n
+                    &&& /*[C10,C11,C02,C01,C07 reader_position_counts_exactly_the_bytes_handed_out]*/ (*final(self)).pos() == (*old(self)).pos() + n
                 };
         proof fn law_suffix(&self)
             ensures self.rem().len() <= self.origin().len(), self.origin().skip(self.origin().len() - self.rem().len()) == self.rem();
